@@ -51,7 +51,10 @@ func (f *Subseq) Call(s *slip.Scope, args slip.List, depth int) (result slip.Obj
 	start, end, seq := f.getArgs(s, args, depth)
 	switch ta := seq.(type) {
 	case slip.List:
-		result = ta[start:end]
+		// subseq always allocates a new list, it never shares with the original.
+		dup := make(slip.List, end-start)
+		copy(dup, ta[start:end])
+		result = dup
 	case slip.String:
 		ra := []rune(ta)
 		result = slip.String(ra[start:end])
